@@ -89,7 +89,14 @@ func TestVerif_C20(t *testing.T) {
 		finals[id] = append(finals[id], f.chain(id).State.FinalRound.Copy())
 	}
 	linkSeen := map[string]uint64{}
-	attempts := r.N(260, 20000)
+	// per chain: the hash its head round had, and how many snapshots, when a transition out of it was last refused
+	type vC20Shorter struct {
+		number uint64
+		n      int
+		hash   crypto.Hash
+	}
+	shorter := map[crypto.Hash]vC20Shorter{}
+	attempts := r.N(260, 9000)
 	accepted, rejected := 0, 0
 
 	noteFinal := func(id crypto.Hash) {
@@ -142,6 +149,35 @@ func TestVerif_C20(t *testing.T) {
 			path = "strict"
 		}
 		wantNew := len(cache.Snapshots) > 0
+		// a quarter of the snapshots for a head round that already holds some join that round instead of asking for the
+		// next one (rounds of several snapshots; a refused transition may be followed by more snapshots of the round)
+		if wantNew && rng.Intn(4) == 0 {
+			start, last := cache.Snapshots[0].Timestamp, cache.Snapshots[0].Timestamp
+			for _, cs := range cache.Snapshots {
+				start, last = min(start, cs.Timestamp), max(last, cs.Timestamp)
+			}
+			sts := last + 1 + uint64(rng.Intn(2e8))
+			if sts < start+config.SnapshotRoundGap {
+				s := &common.Snapshot{Version: common.SnapshotVersionCommonEncoding, NodeId: x, Timestamp: sts, References: cache.References,
+					RoundNumber: cache.Number, Transactions: []crypto.Hash{tx.PayloadHash()}}
+				s.Hash = s.PayloadHash()
+				if _, err := f.sign(s, rng.Intn(2)); err == nil {
+					d := f.deliver(s, []*common.VersionedTransaction{tx})
+					r.Eval()
+					if d.Panicked {
+						r.Violation("C20|panic|finalization|same-round-snapshot", fmt.Sprintf("a snapshot joining the head round panicked: %v", d.PanicVal), nil)
+						if err := f.restart(); err != nil {
+							t.Fatal(err)
+						}
+					} else if d.Finalized {
+						w.Applied(tx, specs)
+						r.Count("snapshots_finalized", 1)
+						r.Count("snapshots_joining_a_head_round_that_already_holds_some", 1)
+					}
+				}
+				continue
+			}
+		}
 		if wantNew {
 			// timestamp beyond the gap so that a new round is the only fit
 			start := cache.Snapshots[0].Timestamp
@@ -156,6 +192,9 @@ func TestVerif_C20(t *testing.T) {
 					f.cursor = ts
 				}
 			}
+		}
+		if sh, ok := shorter[x]; ok && wantNew && sh.number == cache.Number && sh.n < len(cache.Snapshots) && rng.Intn(2) == 0 {
+			variant = "self-of-the-round-before-it-grew"
 		}
 		var refs *common.RoundLink
 		if wantNew {
@@ -210,6 +249,22 @@ func TestVerif_C20(t *testing.T) {
 		case "self-external":
 			l := finals[x]
 			refs.External = l[rng.Intn(len(l))].Hash
+		case "self-of-the-round-before-it-grew":
+			// valid external reference, but the self reference is the hash the head round had when a transition out of
+			// it was refused earlier, before further snapshots joined it
+			ok := false
+			for _, cand := range rng.Perm(len(others)) {
+				yy := others[cand]
+				fr := f.chain(yy).State.FinalRound
+				if fr.Number >= chain.State.RoundLinks[yy] {
+					refs.External, y, ok = fr.Hash, yy, true
+					break
+				}
+			}
+			if !ok {
+				continue
+			}
+			refs.Self = shorter[x].hash
 		case "unknown-external":
 			refs.External = crypto.Blake3Hash([]byte(fmt.Sprint("unknown-round", i)))
 			if rng.Intn(2) == 0 { // and a self reference that is not the hash of the previous final round
@@ -304,6 +359,12 @@ func TestVerif_C20(t *testing.T) {
 		_ = outcomeErr
 		if !moved {
 			rejected++
+			if wantNew {
+				if sh, ok := shorter[x]; !ok || sh.number != cache.Number {
+					_, _, self := verifRoundHashOf(x, cache.Number, cache.Snapshots)
+					shorter[x] = vC20Shorter{number: cache.Number, n: len(cache.Snapshots), hash: self}
+				}
+			}
 			// a finalized snapshot in the current round changes the cache snapshots but not the round: compare round-level state only
 			if !after.memEqual(before) && len(after.cacheSnaps) == len(before.cacheSnaps) {
 				r.Violation("C20|rejected-but-state-changed|"+where, "a rejected round transition changed the chain state", map[string]any{"where": where})
